@@ -283,7 +283,7 @@ func extractC14() *lean {
 	}
 
 	// ---- notifier.retry: arithmetic and retry-go options, as written
-	var initialCount, attempts, guard, maxDelay string
+	var initialCount, attempts, guard, maxDelay, delayInit, doublingLoop string
 	var doubles int
 	var opts []string
 	if fd := funcDecl(nf, "retry"); fd != nil {
@@ -300,7 +300,31 @@ func extractC14() *lean {
 						if x.Tok == token.MUL_ASSIGN && exprString(x.Rhs[0]) == "2" {
 							doubles++
 						}
+						if x.Tok == token.DEFINE {
+							delayInit = c14Expr(x.Rhs[0])
+						}
 					}
+				}
+			case *ast.ForStmt:
+				// the loop that doubles the delay once per recorded attempt
+				if c14CallsIn(x.Body, "retry.Do") == 0 && x.Cond != nil {
+					inc := ""
+					if is, ok := x.Post.(*ast.IncDecStmt); ok {
+						inc = exprString(is.X) + is.Tok.String()
+					}
+					ini := ""
+					if as, ok := x.Init.(*ast.AssignStmt); ok && len(as.Lhs) == 1 && len(as.Rhs) == 1 {
+						ini = exprString(as.Lhs[0]) + " " + as.Tok.String() + " " + c14Expr(as.Rhs[0])
+					}
+					body := ""
+					for _, st := range x.Body.List {
+						if as, ok := st.(*ast.AssignStmt); ok && len(as.Lhs) == 1 && len(as.Rhs) == 1 {
+							body += exprString(as.Lhs[0]) + " " + as.Tok.String() + " " + c14Expr(as.Rhs[0]) + ";"
+						} else {
+							body += fmt.Sprintf("<%T>;", st)
+						}
+					}
+					doublingLoop = "for " + ini + "; " + c14Expr(x.Cond) + "; " + inc + " { " + body + " }"
 				}
 			case *ast.IfStmt:
 				if strings.Contains(c14Expr(x.Cond), "attempts") && guard == "" {
@@ -329,6 +353,8 @@ func extractC14() *lean {
 	l.def("retryAttemptsExpr", "String", fmt.Sprintf("%q", attempts), attempts)
 	l.def("retryGuard", "String", fmt.Sprintf("%q", guard), guard)
 	l.def("retryDelayDoublings", "Nat", fmt.Sprint(doubles), doubles)
+	l.def("retryDelayInit", "String", fmt.Sprintf("%q", delayInit), delayInit)
+	l.def("retryDoublingLoop", "String", fmt.Sprintf("%q", doublingLoop), doublingLoop)
 	l.def("retryOptions", "List String", leanStrList(opts), opts)
 	if ns, ok := durNs(maxDelay); ok {
 		l.def("retryMaxDelayNs", "Nat", fmt.Sprint(ns), ns)
